@@ -151,6 +151,21 @@ func runE2EHistory(seed int64, h int, pool map[string][]*poolKey, ca *caSet, dir
 	histStart := time.Now().Unix()
 	var stop atomic.Bool
 	var tokDone atomic.Int64
+	// first time (return of the operation) at which any operation - token or key-set read - showed a generation
+	var smu sync.Mutex
+	firstSeen := map[int]int64{}
+	sawGen := func(g int, ret int64) {
+		smu.Lock()
+		if t, ok := firstSeen[g]; !ok || ret < t {
+			firstSeen[g] = ret
+		}
+		smu.Unlock()
+	}
+	seenAt := func(g int) int64 {
+		smu.Lock()
+		defer smu.Unlock()
+		return firstSeen[g]
+	}
 
 	readJWKS := func(client int) int {
 		call := now()
@@ -164,6 +179,7 @@ func runE2EHistory(seed int64, h int, pool map[string][]*poolKey, ca *caSet, dir
 		rec.problem(probs...)
 		if g >= 0 {
 			rec.rec(sEv{Client: client, Kind: "jwks", Gen: g, Call: call, Ret: ret})
+			sawGen(g, ret)
 		}
 		return g
 	}
@@ -210,10 +226,14 @@ func runE2EHistory(seed int64, h int, pool map[string][]*poolKey, ca *caSet, dir
 				continue
 			}
 			rec.rec(sEv{Client: 0, Kind: "reload", Gen: g.Idx, Call: c, Ret: r})
+			// the reload is asynchronous: it has happened as soon as ANY operation shows the generation - a key-set read
+			// or a received token. (Waiting for the key set alone would turn a key set that never follows the signer
+			// into "not observed" instead of judging it.)
 			deadline := time.Now().Add(10 * time.Second)
 			for time.Now().Before(deadline) {
-				if readJWKS(0) == g.Idx {
-					w.obs = now()
+				readJWKS(0)
+				if t := seenAt(g.Idx); t != 0 {
+					w.obs = t
 					break
 				}
 				time.Sleep(300 * time.Microsecond)
@@ -276,6 +296,7 @@ func runE2EHistory(seed int64, h int, pool map[string][]*poolKey, ca *caSet, dir
 				rec.problem(probs...)
 				if tv.Gen >= 0 {
 					rec.rec(sEv{Client: 1 + c, Kind: kind, Gen: tv.Gen, Call: call, Ret: ret})
+					sawGen(tv.Gen, ret)
 					if i%2 == 0 {
 						// paired read: starts after the token was returned => must show the token's generation or a later one
 						if jg := readJWKS(1 + c); jg >= 0 && jg == tv.Gen {
@@ -325,10 +346,12 @@ func runE2EHistory(seed int64, h int, pool map[string][]*poolKey, ca *caSet, dir
 	if g := readJWKS(99); g != last.gen {
 		res.Problems = append(res.Problems, problem{Sig: "e2e-final-generation", Text: fmt.Sprintf("after quiescence the key set shows generation %d, last written %d", g, last.gen)})
 	}
-	res.Problems = append(res.Problems, checkRealTimeOrder(evs, writes[1:])...)
+	op, afterTok := checkRealTimeOrder(evs, writes[1:])
+	res.Problems = append(res.Problems, op...)
+	res.AfterTok = afterTok
 	res.Verdict = "ok"
 	for _, p := range res.Problems {
-		if strings.HasPrefix(p.Sig, "e2e-generation") {
+		if strings.HasPrefix(p.Sig, "e2e-generation") || p.Sig == "e2e-key-set-lacks-key-of-received-token" {
 			res.Verdict = "illegal"
 		}
 	}
@@ -366,7 +389,7 @@ func (fatalOnly) WriteLevel(l zerolog.Level, p []byte) (int, error) {
 type written struct {
 	gen       int
 	call, ret int64 // rename bracket
-	obs       int64 // return time of the reloader's first key-set read showing the generation (0: never)
+	obs       int64 // return time of the first operation (token or key-set read) showing the generation (0: never)
 }
 
 func countGood(gens []*genSpec) int {
@@ -384,11 +407,11 @@ func countGood(gens []*genSpec) int {
 // active generation is monotone. Checked, for every token operation that certainly signed (no cache
 // in the app) and every key-set read:
 //   - never a generation whose file was not yet in place when the operation returned;
-//   - an operation that starts after another one returned generation g never returns an older one.
+//   - an operation that starts after another one returned generation g never returns an older one; in particular a
+//     key set whose fetch started after a token of generation g was received shows g or a later generation.
 //
-// Tokens served by an app with a cache are checked for the first fact only.
-func checkRealTimeOrder(evs []sEv, writes []written) []problem {
-	var out []problem
+// Tokens served by an app with a cache are checked for the first fact only; they are evidence for the second one.
+func checkRealTimeOrder(evs []sEv, writes []written) (out []problem, afterTok int) {
 	wcall := map[int]int64{}
 	for _, w := range writes {
 		wcall[w.gen] = w.call
@@ -401,31 +424,48 @@ func checkRealTimeOrder(evs []sEv, writes []written) []problem {
 			out = append(out, problem{Sig: "e2e-generation-from-the-future", Text: fmt.Sprintf("%s operation [%d,%d] returned generation %d whose store was put in place at %d", e.Kind, e.Call, e.Ret, e.Gen, c), Detail: e})
 		}
 	}
-	var reads []sEv
+	// evidence: every received token (also one that may come from the cache: it was signed by a generation that had
+	// been loaded by then) and every key-set read; judged: operations that certainly read the current state
+	var reads, byRet []sEv
 	for _, e := range evs {
 		if e.Kind == "tok" || e.Kind == "jwks" {
 			reads = append(reads, e)
 		}
+		if e.Kind == "tok" || e.Kind == "ctok" || e.Kind == "jwks" {
+			byRet = append(byRet, e)
+		}
 	}
-	byRet := append([]sEv(nil), reads...)
 	sort.Slice(byRet, func(i, j int) bool { return byRet[i].Ret < byRet[j].Ret })
 	sort.Slice(reads, func(i, j int) bool { return reads[i].Call < reads[j].Call })
-	k, maxGen := 0, -1
-	var maxEv sEv
+	k, maxGen, maxTok := 0, -1, -1
+	var maxEv, maxTokEv sEv
+	n := 0
 	for _, e := range reads {
 		for k < len(byRet) && byRet[k].Ret < e.Call {
 			if byRet[k].Gen > maxGen {
 				maxGen, maxEv = byRet[k].Gen, byRet[k]
 			}
+			if byRet[k].Kind != "jwks" && byRet[k].Gen > maxTok {
+				maxTok, maxTokEv = byRet[k].Gen, byRet[k]
+			}
 			k++
 		}
+		if e.Kind == "jwks" && maxTok >= 1 {
+			afterTok++ // a key set fetched after a token of a reloaded generation was received
+		}
 		if e.Gen < maxGen {
-			out = append(out, problem{Sig: "e2e-generation-regressed", Text: fmt.Sprintf("%s operation [%d,%d] returned generation %d although a %s operation had already returned generation %d at %d",
-				e.Kind, e.Call, e.Ret, e.Gen, maxEv.Kind, maxGen, maxEv.Ret), Detail: map[string]any{"later": e, "earlier": maxEv}})
-			if len(out) > 5 {
+			p := problem{Sig: "e2e-generation-regressed", Text: fmt.Sprintf("%s operation [%d,%d] returned generation %d although a %s operation had already returned generation %d at %d",
+				e.Kind, e.Call, e.Ret, e.Gen, maxEv.Kind, maxGen, maxEv.Ret), Detail: map[string]any{"later": e, "earlier": maxEv}}
+			if e.Kind == "jwks" && e.Gen < maxTok {
+				// the plain statement of the property: a token was received, the key set fetched afterwards does not verify it
+				p = problem{Sig: "e2e-key-set-lacks-key-of-received-token", Text: fmt.Sprintf("a token signed by generation %d was received at %d; the key set whose fetch started afterwards [%d,%d] "+
+					"is the one of generation %d: it does not contain that token's key", maxTok, maxTokEv.Ret, e.Call, e.Ret, e.Gen), Detail: map[string]any{"key_set_read": e, "token": maxTokEv}}
+			}
+			out = append(out, p)
+			if n++; n > 5 {
 				break
 			}
 		}
 	}
-	return out
+	return out, afterTok
 }
